@@ -39,14 +39,12 @@ Definition remaining : list string :=
     "inlines.rs:handle_pointy_brace:uri";
     "inlines.rs:handle_pointy_brace:email";
     "inlines.rs:handle_pointy_brace:contents";
+    "inlines.rs:make_autolink:end_column-1";
     "inlines.rs:handle_close_bracket:input[endurl..]";
     "inlines.rs:handle_close_bracket:input[starttitle..]";
     "inlines.rs:handle_close_bracket:input[endtitle..]";
     "inlines.rs:handle_close_bracket:title";
     "strings.rs:clean_title:title[1..title_len - 1]";
-    "autolink.rs:autolink_delim:link_end - 2";
-    "autolink.rs:www_match:i+link_end-1";
-    "inlines.rs:handle_autolink_with:skip-need_reverse";
     "inlines.rs:adjust_node_newlines:slice";
     "inlines.rs:parse_inline:endpos-1" ].
 
@@ -93,6 +91,20 @@ Lemma end_col_panic s site : end_col s = Panic site ->
   (Z.of_nat (pos s) + coloff s + Z.of_N (lineoff s) < 0)%Z.
 Proof. unfold end_col, to_usize. destruct (_ <? 0)%Z eqn:E; [|discriminate]. intros _. apply Z.ltb_lt in E. exact E. Qed.
 
+(* ------------------------------------------------------------------ checked arithmetic, as facts *)
+Lemma usub_ok site a b x : usub site a b = Ok x -> b <= a /\ x + b = a.
+Proof. unfold usub. destruct (Nat.ltb a b) eqn:E; [discriminate|]. intro H. inversion H. apply Nat.ltb_ge in E. lia. Qed.
+Lemma usub_panic site a b site' : usub site a b = Panic site' -> site' = site /\ a < b.
+Proof. unfold usub. destruct (Nat.ltb a b) eqn:E; [|discriminate]. intro H. inversion H. apply Nat.ltb_lt in E. auto. Qed.
+Lemma slice_ok inp site a b t : slice inp site a b = Ok t ->
+  a <= b /\ b <= List.length inp /\ t = firstn (b - a) (skipn a inp).
+Proof.
+  unfold slice, len. destruct (_ || _) eqn:E; [discriminate|]. intro H. inversion H.
+  apply orb_false_iff in E. destruct E as [E1 E2]. apply Nat.ltb_ge in E1. apply Nat.ltb_ge in E2. auto.
+Qed.
+Lemma slice_panic inp site a b site' : slice inp site a b = Panic site' -> site' = site.
+Proof. unfold slice. destruct (_ || _); [|discriminate]. intro H. inversion H. reflexivity. Qed.
+
 (* ------------------------------------------------------------------ inversion of `= Panic site` *)
 Ltac leafp H :=
   first [ exfalso; revert H; apply entity_unescape_nopanic
@@ -110,6 +122,10 @@ Ltac invp1 :=
   | H : OutOfFuel = Panic _ |- _ => discriminate H
   | H : Panic _ = Panic _ |- _ => inversion H; subst; clear H
   | H : mk _ _ _ _ = Panic _ |- _ => apply mk_panic in H; destruct H as [-> H]
+  | H : usub _ _ _ = Ok _ |- _ => apply usub_ok in H; destruct H
+  | H : usub _ _ _ = Panic _ |- _ => apply usub_panic in H; destruct H as [-> H]
+  | H : slice _ _ _ _ = Ok _ |- _ => apply slice_ok in H; destruct H as (? & ? & ?)
+  | H : slice _ _ _ _ = Panic _ |- _ => apply slice_panic in H; subst
   | H : end_col _ = Panic _ |- _ => apply end_col_panic in H
   | H : Entity.unescape _ = Panic _ |- _ => leafp H
   | H : Entity.unescape_html _ = Panic _ |- _ => leafp H
@@ -773,6 +789,285 @@ Proof.
         eapply (adjust_inv s) in Ha; simp_st; try eassumption; try reflexivity; try lia end;
       match goal with Ha : _ /\ _ /\ _ /\ _ |- _ => destruct Ha as (A1 & A2 & A3 & _); auto end.
   - inv; apply Hstay; unfold stay; simp_st; repeat split; lia.
+Qed.
+
+(* ------------------------------------------------------------------ handle_pointy_brace *)
+Lemma make_autolink_sites s url e sc ec site :
+  CInv s -> pos s <= sc -> pos s <= ec ->
+  make_autolink s url e sc ec = Panic site -> allowed site = true.
+Proof.
+  intros (C1 & C2 & _) A B H. unfold make_autolink in H. invp; simp_st; try site_or_absurd.
+Qed.
+
+Lemma handle_pointy_brace_sites s c site :
+  CInv s -> LInv s -> nth_error inp (pos s) = Some c ->
+  handle_pointy_brace inp lo s = Panic site -> allowed site = true.
+Proof.
+  intros C [L1 L2] Ec H. pose proof C as (C1 & C2 & C3). pose proof (nth_lt _ _ Ec) as Hlt.
+  unfold handle_pointy_brace in H. unfold from in H.
+  destruct (Nat.ltb (len inp) (S (pos s))) eqn:E0; [apply Nat.ltb_lt in E0; unfold len in E0; lia|]. cbn [bind] in H.
+  destruct (scan_autolink_uri (skipn (S (pos s)) inp)) as [m|].
+  { invp; simp_st; try site_or_absurd.
+    all: match goal with Hm : make_autolink _ _ _ _ _ = Panic _ |- _ =>
+           eapply make_autolink_sites in Hm; [exact Hm|exact C|simp_st; lia|simp_st; lia] end. }
+  destruct (scan_autolink_email (skipn (S (pos s)) inp)) as [m|].
+  { invp; simp_st; try site_or_absurd.
+    all: match goal with Hm : make_autolink _ _ _ _ _ = Panic _ |- _ =>
+           eapply make_autolink_sites in Hm; [exact Hm|exact C|simp_st; lia|simp_st; lia] end. }
+  match type of H with (let '(_, _) := ?x in _) = _ => destruct x as [ml [[[fc fd] fp] fm]] end.
+  destruct ml as [m|].
+  - invp; simp_st; try site_or_absurd.
+    match goal with Ha : adjust_node_newlines _ _ _ _ _ _ = Panic _ |- _ => eapply adjust_sites in Ha; [exact Ha| | |] end.
+    + simp_st. lia.
+    + match goal with Em : mk _ _ _ _ = Ok ?n |- _ => apply mk_shape in Em; destruct Em as (c1 & c2 & ->) end. reflexivity.
+    + simp_st. bools. unfold len in *.
+      replace (S (pos s) + m - 1 - (S (pos s) + m - (m + 1))) with (pos s + m - pos s) by lia.
+      replace (S (pos s) + m - (m + 1)) with (pos s) by lia.
+      pose proof (lf_in_range (pos s) (pos s + m) ltac:(lia) ltac:(lia)). lia.
+  - invp; simp_st; try site_or_absurd.
+Qed.
+
+Lemma handle_pointy_brace_post s s' n :
+  CInv s -> LInv s -> handle_pointy_brace inp lo s = Ok (s', n) ->
+  CInv s' /\ LInv s' /\ refsize s' = refsize s.
+Proof.
+  intros C Li H.
+  assert (forall s1, stay s s1 -> CInv s1 /\ LInv s1 /\ refsize s1 = refsize s) as Hstay.
+  { intros s1 (A & B & D & E). split; [eapply CInv_stay; eassumption|]. split; [eapply LInv_stay; eassumption|exact D]. }
+  unfold handle_pointy_brace in H.
+  match type of H with bind ?r _ = _ => destruct r as [rest|?|]; cbn [bind] in H; try discriminate H end.
+  destruct (scan_autolink_uri rest) as [m|].
+  { inv. apply Hstay. unfold stay. simp_st. repeat split; lia. }
+  destruct (scan_autolink_email rest) as [m|].
+  { inv. apply Hstay. unfold stay. simp_st. repeat split; lia. }
+  match type of H with (let '(_, _) := ?x in _) = _ => destruct x as [ml [[[fc fd] fp] fm]] end.
+  destruct ml as [m|].
+  - unfold usub in H. inv; bools.
+    match goal with Ha : adjust_node_newlines _ _ _ _ _ _ = Ok _ |- _ =>
+      eapply (adjust_inv s) in Ha; simp_st; try eassumption; try reflexivity; try lia end.
+    destruct H as (A1 & A2 & A3 & _). auto.
+  - inv. apply Hstay. unfold stay. simp_st. repeat split; lia.
+Qed.
+
+(* ------------------------------------------------------------------ wikilinks *)
+Lemma wull_gt o p url ll p' :
+  wikilink_url_link_label o inp p = Some (url, ll, p') ->
+  p < p' /\ forall label c, ll = Some (label, c) -> p < c.
+Proof.
+  unfold wikilink_url_link_label. intro E.
+  destruct (negb _); [discriminate|].
+  destruct (wikilink_component inp p) as [p1|] eqn:E1; [|discriminate].
+  apply wikilink_component_ge in E1.
+  destruct (_ && _); [inversion E; subst; split; [lia|intros; discriminate]|].
+  destruct (negb _); [discriminate|].
+  destruct (wikilink_component inp p1) as [p2|] eqn:E2; [|discriminate].
+  apply wikilink_component_ge in E2.
+  destruct (_ && _); [|discriminate].
+  destruct (wikilinks_mode o) as [[|]|]; inversion E; subst; (split; [lia|]); intros label c Hc; inversion Hc; lia.
+Qed.
+
+Lemma lbe_loop_sites o s sc0 : (- coloff s <= Z.of_nat sc0)%Z -> 1 <= sc0 ->
+  forall k rest, List.length rest <= k -> forall offset startpos cur acc site,
+  lbe_loop o s sc0 rest offset startpos cur acc = Panic site -> allowed site = true.
+Proof.
+  intros C Hsc. induction k as [|k IH]; intros rest Hk offset startpos cur acc site H.
+  - destruct rest as [|c r]; [|cbn [List.length] in Hk; lia]. cbn [lbe_loop] in H. invp; try site_or_absurd.
+  - destruct rest as [|c r]; [cbn [lbe_loop] in H; invp; try site_or_absurd|].
+    cbn [List.length] in Hk. cbn [lbe_loop] in H.
+    destruct r as [|c2 r2]; [eapply IH; [|exact H]; cbn [List.length]; lia|]. cbn [List.length] in Hk.
+    destruct (beqb c x5c && sl_ispunct c2); [|eapply IH; [|exact H]; cbn [List.length]; lia].
+    repeat match type of H with
+           | bind ?r _ = Panic _ =>
+             let E := fresh "E" in destruct r eqn:E; cbn [bind] in H;
+             [ | inversion H; subst; clear H; invp; try site_or_absurd | discriminate H ]
+           end.
+    eapply IH; [|exact H]. lia.
+Qed.
+
+Lemma handle_wikilink_sites o s site :
+  (- coloff s <= Z.of_nat (pos s) - 1)%Z -> 1 <= pos s ->
+  handle_wikilink o inp s = Panic site -> allowed site = true.
+Proof.
+  intros C Hp H. unfold handle_wikilink in H.
+  destruct (wikilink_url_link_label o inp (pos s)) as [[[url ll] p']|] eqn:Ew; [|discriminate].
+  apply wull_gt in Ew. destruct Ew as [Hlt Hll].
+  cbv zeta in H.
+  match type of H with bind ?r _ = _ => destruct r as [cu|?|] eqn:E1; cbn [bind] in H; [|leafp E1|discriminate H] end.
+  match type of H with bind ?r _ = _ => destruct r as [[lab c]|?|] eqn:E2; cbn [bind] in H; [| |discriminate H] end.
+  2:{ destruct ll as [[label c]|]; invp. }
+  assert (pos s < c) as Hc.
+  { destruct ll as [[label c0]|]; inv; [eapply Hll; reflexivity|simp_st; lia]. }
+  match type of H with bind ?r _ = _ => destruct r as [a|?|] eqn:E3; cbn [bind] in H; [| |discriminate H] end.
+  2:{ invp; try site_or_absurd. }
+  match type of H with bind ?r _ = _ => destruct r as [n|?|] eqn:E4; cbn [bind] in H; [| |discriminate H] end.
+  2:{ invp; simp_st; try site_or_absurd. }
+  match type of H with bind ?r _ = _ => destruct r as [kids|?|] eqn:E5; cbn [bind] in H; [discriminate H| |discriminate H] end.
+  inversion H; subst. eapply (lbe_loop_sites o (set_pos s p') c); [cbn [coloff set_pos]; lia|lia|apply Nat.le_refl|exact E5].
+Qed.
+
+Lemma handle_wikilink_stay o s s' n : handle_wikilink o inp s = Ok (Some (s', n)) -> stay s s'.
+Proof.
+  intro H. unfold handle_wikilink in H.
+  destruct (wikilink_url_link_label o inp (pos s)) as [[[url ll] p']|] eqn:Ew; [|discriminate].
+  apply wull_gt in Ew. destruct Ew as [Hlt _].
+  inv; unfold stay; simp_st; repeat split; lia.
+Qed.
+
+(* ------------------------------------------------------------------ the autolink extension *)
+Lemma ext_loop_le o : forall rest prev le le1, ext_loop o rest prev le = Some le1 -> le1 <= le + List.length rest.
+Proof.
+  induction rest as [|c r IH]; intros prev le le1 H; cbn [ext_loop List.length] in *; [inversion H; lia|].
+  destruct (sl_isspace c); [inversion H; lia|].
+  destruct (_ && _ && _); [discriminate|]. apply IH in H. lia.
+Qed.
+
+Lemma autolink_delim_nopanic i c le relaxed site :
+  nth_error inp i = Some c -> c <> x3b -> le <= List.length inp - i ->
+  autolink_delim (skipn i inp) le relaxed = Panic site -> False.
+Proof.
+  intros Ec Hc Hle H.
+  destruct (autolink_delim_total (skipn i inp) le relaxed) as [n [E _]].
+  - rewrite skipn_length. exact Hle.
+  - rewrite (skipn_at i c Ec). exact Hc.
+  - congruence.
+Qed.
+
+Lemma url_match_result o u i r :
+  nth_error inp i = Some x3a -> url_match o u inp i = r ->
+  match r with
+  | Ok (Some (_, _, rv, sk)) => rv <= sk
+  | Ok None => True
+  | Panic _ => False
+  | OutOfFuel => True
+  end.
+Proof.
+  intros Ec H. subst r. unfold url_match.
+  destruct (_ || _ || _); [exact I|].
+  destruct (_ && _); [exact I|].
+  destruct (check_domain_total (hostchar_oracle u) (skipn (i + 3) inp) true) as [d [Ed Hd]]. rewrite Ed. cbn [bind].
+  destruct d as [le0|]; [|exact I]. rewrite skipn_length in Hd.
+  destruct (ext_loop o (skipn (i + le0) inp) _ le0) as [le1|] eqn:Ee; [|exact I].
+  apply ext_loop_le in Ee. rewrite skipn_length in Ee.
+  destruct (autolink_delim (skipn i inp) le1 (io_relaxed_autolinks o)) as [le2|site|] eqn:Ea; cbn [bind]; [lia| |exact I].
+  eapply autolink_delim_nopanic; [exact Ec|discriminate| |exact Ea]. pose proof (nth_lt _ _ Ec). lia.
+Qed.
+
+Lemma www_match_result o u i r :
+  www_match o u inp i = r ->
+  match r with
+  | Ok (Some (_, _, rv, sk)) => rv <= sk
+  | Ok None => True
+  | Panic _ => False
+  | OutOfFuel => True
+  end.
+Proof.
+  intro H. subst r. unfold www_match.
+  destruct (_ && _ && _); [exact I|].
+  destruct (negb (starts_with (skipn i inp) [x77; x77; x77; x2e])) eqn:Esw; [exact I|].
+  apply negb_false_iff in Esw. apply starts_with_app in Esw. destruct Esw as [rr Err].
+  destruct (check_domain_total (hostchar_oracle u) (skipn i inp) false) as [d [Ed Hd]]. rewrite Ed. cbn [bind].
+  destruct d as [le0|]; [|exact I]. rewrite skipn_length in Hd.
+  assert (1 <= le0) as Hle0 by (rewrite Err in Ed; eapply check_domain_www; exact Ed).
+  unfold usub. destruct (Nat.ltb (i + le0) 1) eqn:E1; [apply Nat.ltb_lt in E1; lia|]. cbn [bind].
+  destruct (ext_loop o (skipn (i + le0) inp) _ le0) as [le1|] eqn:Ee; [|exact I].
+  apply ext_loop_le in Ee. rewrite skipn_length in Ee.
+  assert (nth_error inp i = Some x77) as Ec.
+  { rewrite <- (Nat.add_0_r i). rewrite <- nth_error_skipn. rewrite Err. reflexivity. }
+  destruct (autolink_delim (skipn i inp) le1 (io_relaxed_autolinks o)) as [le2|site|] eqn:Ea; cbn [bind]; [lia| |exact I].
+  eapply autolink_delim_nopanic; [exact Ec|discriminate| |exact Ea]. pose proof (nth_lt _ _ Ec). lia.
+Qed.
+
+Lemma rewind_loop_sites : forall fuel reverse l site, rewind_loop fuel reverse l = Panic site -> allowed site = true.
+Proof.
+  induction fuel as [|f IH]; intros reverse l site H.
+  - destruct reverse; discriminate.
+  - cbn [rewind_loop] in H. destruct reverse as [|k]; [discriminate|].
+    destruct l as [|[id n] r]; [inversion H; reflexivity|].
+    destruct (text_of n) as [prev|]; [|inversion H; reflexivity].
+    destruct (Nat.ltb (S k) (List.length prev)); [|eapply IH; exact H].
+    unfold nsub in H. destruct (_ <? _)%N; cbn [bind] in H; [inversion H; reflexivity|discriminate].
+Qed.
+
+Lemma haw_sites o s m site :
+  (forall r, m (pos s) = r ->
+     match r with Ok (Some (_, _, rv, sk)) => rv <= sk | Ok None => True | Panic _ => False | OutOfFuel => True end) ->
+  handle_autolink_with o s m = Panic site -> allowed site = true.
+Proof.
+  intros Hm H. unfold handle_autolink_with in H.
+  destruct (negb (io_relaxed_autolinks o) && within s); [discriminate|].
+  cbv zeta in H. specialize (Hm _ eq_refl).
+  destruct (m (pos s)) as [[[[[url text] nr] skip]|]|?|]; cbn [bind] in H; try discriminate; [|destruct Hm].
+  unfold usub in H. destruct (Nat.ltb skip nr) eqn:E; [apply Nat.ltb_lt in E; lia|]. cbn [bind] in H.
+  destruct (rewind_loop _ _ _) as [l'|?|] eqn:Er; cbn [bind] in H; try discriminate.
+  inversion H; subst. eapply rewind_loop_sites; exact Er.
+Qed.
+
+Lemma haw_stay o s m s' n : handle_autolink_with o s m = Ok (Some (s', n)) -> stay s s'.
+Proof.
+  unfold handle_autolink_with. intro H.
+  destruct (negb (io_relaxed_autolinks o) && within s); [discriminate|].
+  cbv zeta in H.
+  destruct (m (pos s)) as [[[[[url text] nr] skip]|]|?|]; cbn [bind] in H; try discriminate.
+  destruct (usub _ _ _) as [adv|?|]; cbn [bind] in H; try discriminate.
+  destruct (rewind_loop _ _ _) as [l'|?|]; cbn [bind] in H; try discriminate.
+  inversion H; subst. unfold stay. simp_st. repeat split; lia.
+Qed.
+
+(* ------------------------------------------------------------------ process_emphasis *)
+Lemma insert_emph_sites o s n0 items op cl site :
+  (- coloff s <= Z.of_nat (pos s))%Z ->
+  insert_emph o s n0 items op cl = Panic site -> allowed site = true.
+Proof.
+  intro C. unfold insert_emph.
+  destruct (split_at_id (d_id op) items) as [[[pre opi] rest1]|]; [|intro H; inversion H; reflexivity].
+  destruct (split_at_id (d_id cl) rest1) as [[[mid cli] post]|]; [|intro H; inversion H; reflexivity].
+  destruct (text_of (snd opi)) as [ot|]; [|intro H; inversion H; reflexivity].
+  destruct (text_of (snd cli)) as [ct|]; [|intro H; inversion H; reflexivity].
+  destruct ot as [|oc ot']; [intro H; inversion H; reflexivity|].
+  cbv zeta. unfold usub, nsub.
+  repeat match goal with
+         | |- context [mk ?s ?v ?a ?b] =>
+           let E := fresh "E" in destruct (mk s v a b) eqn:E; cbn [bind];
+           [| apply mk_panic in E; exfalso; lia | intro H; discriminate H]
+         | |- Ok _ = _ -> _ => intro H; discriminate H
+         | |- Panic _ = _ -> _ => intro H; inversion H; reflexivity
+         | |- context [if ?b then _ else _] => destruct b; cbn [bind]
+         end.
+Qed.
+
+Lemma pe_loop_sites o : forall fuel s n0 items ob below cs site,
+  (- coloff s <= Z.of_nat (pos s))%Z ->
+  Forall (fun d => dchar_ok o (d_char d) = true) cs ->
+  pe_loop o fuel s n0 items ob below (hd_error cs) (tl cs) = Panic site -> allowed site = true.
+Proof.
+  induction fuel as [|f IH]; intros s n0 items ob below cs site C Hok H; [discriminate|].
+  cbn [pe_loop] in H. destruct cs as [|c above]; cbn [hd_error tl] in H; [discriminate|].
+  destruct (hd_tl_next above) as [E1 E2]. rewrite E1, E2 in H. clear E1 E2.
+  inversion Hok as [|? ? Hc Hab]; subst.
+  destruct (d_close c); [|eapply IH; [exact C|exact Hab|exact H]].
+  destruct (ob_index_ok o c Hc) as [ix Eix]. rewrite Eix in H. cbn [bind] in H.
+  destruct (find_opener c (nth ix ob 0) below [] false) as [found mod3].
+  destruct (is_emph_char o (d_char c)) eqn:Eem.
+  - destruct found as [[[between op] rest]|]; [|eapply IH; [exact C|exact Hab|exact H]].
+    destruct (insert_emph o s n0 items op c) as [[[[[items' ko] kc] n1]|]| |] eqn:Ei; cbn [bind] in H; try discriminate H.
+    + destruct kc; [eapply (IH _ _ _ _ _ (c :: above)); [exact C|exact Hok|exact H]|eapply IH; [exact C|exact Hab|exact H]].
+    + inversion H; subst. eapply insert_emph_sites; [exact C|exact Ei].
+  - unfold dchar_ok in Hc. rewrite Eem in Hc. cbn [orb] in Hc. unfold quote in Hc. rewrite Hc in H.
+    match type of H with bind ?r _ = _ => destruct r as [items1| |] eqn:Er1; cbn [bind] in H; try discriminate H end.
+    2:{ inversion H; subst. apply replace_item_text_site in Er1. subst. reflexivity. }
+    destruct found as [[[between op] rest]|]; [|eapply IH; [exact C|exact Hab|exact H]].
+    match type of H with bind ?r _ = _ => destruct r as [items2| |] eqn:Er2; cbn [bind] in H; try discriminate H end.
+    2:{ inversion H; subst. apply replace_item_text_site in Er2. subst. reflexivity. }
+    eapply IH; [exact C|exact Hab|exact H].
+Qed.
+
+Lemma process_emphasis_sites o s n0 items ds bottom site :
+  (- coloff s <= Z.of_nat (pos s))%Z ->
+  Forall (fun d => dchar_ok o (d_char d) = true) ds ->
+  process_emphasis o inp s n0 items ds bottom = Panic site -> allowed site = true.
+Proof.
+  intros C Hok H. unfold process_emphasis in H. destruct ds as [|c above]; [discriminate|].
+  eapply (pe_loop_sites o _ s n0 items _ [] (c :: above)); eassumption.
 Qed.
 
 End Inv.
